@@ -412,3 +412,52 @@ fn line_ends_are_normalized() {
     };
     test_serde(&val);
 }
+
+/// `Grantee$Type` is the attribute `xsi:type` of the `Grantee` start tag
+#[test]
+fn grantee_type_is_an_attribute() {
+    let xsi = "http://www.w3.org/2001/XMLSchema-instance";
+    let doc = format!(
+        concat!(
+            "<AccessControlPolicy>",
+            "<Owner><ID>o</ID></Owner>",
+            "<AccessControlList>",
+            "<Grant>",
+            "<Grantee xmlns:xsi=\"{xsi}\" xsi:type=\"CanonicalUser\"><ID>a</ID></Grantee>",
+            "<Permission>FULL_CONTROL</Permission>",
+            "</Grant>",
+            "<Grant>",
+            "<Grantee xsi:type='Group' xmlns:xsi='{xsi}'><URI>http://acs.amazonaws.com/groups/global/AllUsers</URI></Grantee>",
+            "<Permission>READ</Permission>",
+            "</Grant>",
+            "</AccessControlList>",
+            "</AccessControlPolicy>",
+        ),
+        xsi = xsi
+    );
+    let val = deserialize::<s3s::dto::AccessControlPolicy>(doc.as_bytes()).unwrap();
+    let grants = val.grants.as_deref().unwrap();
+    let types: Vec<&str> = grants.iter().map(|g| g.grantee.as_ref().unwrap().type_.as_str()).collect();
+    assert_eq!(types, ["CanonicalUser", "Group"]);
+
+    let xml = serialize(&val).unwrap();
+    assert!(xml.contains(&format!("<Grantee xmlns:xsi=\"{xsi}\" xsi:type=\"CanonicalUser\"><ID>a</ID></Grantee>")));
+    assert!(xml.contains("xsi:type=\"Group\"><URI>"));
+    test_serde(&val);
+
+    // the attribute is required; a child element of that name is not known
+    let ans = deserialize::<s3s::dto::AccessControlPolicy>(doc.replace(" xsi:type=\"CanonicalUser\"", "").as_bytes());
+    assert!(matches!(ans, Err(xml::DeError::MissingField)));
+    let ans = deserialize::<s3s::dto::AccessControlPolicy>(doc.replace("<ID>a</ID>", "<xsi:type>Group</xsi:type>").as_bytes());
+    assert!(matches!(ans, Err(xml::DeError::UnexpectedTagName)));
+
+    // any string survives: markup characters, and white space that a reader would turn into spaces
+    let mut val = val;
+    val.grants.as_mut().unwrap()[0].grantee.as_mut().unwrap().type_ = s3s::dto::Type::from(" <a>&'\"\t\r\n é ".to_owned());
+    test_serde(&val);
+
+    // literal white space in an attribute value is a space (XML 1.0, section 3.3.3)
+    let ans =
+        deserialize::<s3s::dto::AccessControlPolicy>(doc.replace("CanonicalUser", "a\tb\r\nc\rd&#10;e").as_bytes()).unwrap();
+    assert_eq!(ans.grants.unwrap()[0].grantee.as_ref().unwrap().type_.as_str(), "a b c d\ne");
+}
